@@ -57,9 +57,9 @@ Inductive event :=
 | ECb (x : ctx) (c : cb State aid)
 (* internal (ghost) events *)
 | EEnq (a : aid) | EEnqExit | EDeq (i : item aid) | EDisc | EDrop (a : aid) | EReject (a : aid)
-| ESubDrop (sid : N)
+| ESubNew (sid : N) | ESubDrop (sid : N) | ESubSend (sid : N) (a : aid) | ESubRecv (sid : N) (a : aid)
 | EWrite (a : aid) (s : State) | ESnapshot (a : aid) (l : list N)
-| ESpawn (k : N) (t : N) | ESpawnSkipped (k : N) | ETakePool | EPanic (t : N).
+| EReduced (a : aid) | ESpawn (k : N) (t : N) | ESpawnSkipped (k : N) | ETakePool | EPanic (t : N).
 
 (* ---------------- program counters ---------------- *)
 Inductive cpc :=
@@ -164,7 +164,9 @@ Definition set_thread (w : world) (t : N) (th : thread) : world :=
   set_threads w (put_thread (w_threads w) t th).
 
 Definition reducer_tid : N := 100.
-Definition chan_tid (sid : N) : N := 200 + sid.
+(* tid namespaces never collide: clients < 100, the reducer is 100, channeled threads are odd
+   (201 + 2 sid), pool workers are even and >= 1000 *)
+Definition chan_tid (sid : N) : N := 201 + 2 * sid.
 Definition first_worker_tid : N := 1000.
 
 (* ---------------- locks, derived from program counters ---------------- *)
@@ -253,7 +255,7 @@ Definition eff_visible (e : eff) : bool := match e_kind e with KAction _ => fals
 
 Definition spawn_worker (w : world) (k : N) (prog : list call) (visible : bool) : world :=
   let t := w_next_tid w in
-  emit (set_next_tid (set_thread w t (TClient (Worker k) prog (PTaskStart k visible))) (t + 1))
+  emit (set_next_tid (set_thread w t (TClient (Worker k) prog (PTaskStart k visible))) (t + 2))
        (ESpawn k t).
 
 (* ================= client steps ================= *)
@@ -292,6 +294,14 @@ Definition dq_phase (w : world) (x : item aid) (ph : sphase) : option (world * s
   end.
 
 (* a send on the subscription channel of sid *)
+Definition sub_events (sid : N) (x : item (State * aid)) (sr : sresult) (dropped : list (State * aid))
+  : list event :=
+  map (fun _ => ESubDrop sid) dropped ++
+  match sr, x with
+  | SDone true, IAct (_, a) => [ESubSend sid a]
+  | _, _ => []
+  end.
+
 Definition sub_phase (w : world) (sid : N) (x : item (State * aid)) (ph : sphase)
   : option (world * sresult) :=
   match get_chan (w_chans w) sid with
@@ -301,7 +311,7 @@ Definition sub_phase (w : world) (sid : N) (x : item (State * aid)) (ph : sphase
       | None => None
       | Some (c', sr, dropped) =>
           Some (emits (upd_metrics (set_chan w sid c') (fun m => m_add_dropped m (N.of_nat (length dropped))))
-                      (map (fun _ => ESubDrop sid) dropped), sr)
+                      (sub_events sid x sr dropped), sr)
       end
   end.
 
@@ -334,11 +344,11 @@ Definition invoke (w : world) (t : N) (r : role) (prog : list call) (silent : bo
           | CAddSubscriber sid => go (PSubsAdd (mkSub sid SKDirect))
           | CSubscribeSelector sid sel => go (PSubsAdd (mkSub sid (SKSelector sel)))
           | CSubscribed sid c0 p =>
-              let w2 := set_chan w1 sid (chan_new c0 p) in
+              let w2 := emit (set_chan w1 sid (chan_new c0 p)) (ESubNew sid) in
               let w3 := set_thread w2 (chan_tid sid) (TChan sid false) in
               Some (set_thread w3 t (TClient r prog (PSubsAdd (mkSub sid SKChan))))
           | CIter sid c0 p =>
-              let w2 := set_chan w1 sid (chan_new c0 p) in
+              let w2 := emit (set_chan w1 sid (chan_new c0 p)) (ESubNew sid) in
               Some (set_thread w2 t (TClient r prog (PSubsAdd (mkSub sid SKIter))))
           | CUnsubscribe sid => go (PUnsubLock sid)
           | CNext sid | CDrain sid => if memN sid (w_iter_done w) then go PCall else go (PNextRecv sid)
@@ -456,7 +466,7 @@ Definition step_client (w : world) (t : N) (r : role) (prog : list call) (pc : c
           match recv c with
           | None => None
           | Some (Some (IAct x), c') =>
-              let w1 := ret (set_chan w sid c') t r prog (RItem (Some x)) in
+              let w1 := ret (emit (set_chan w sid c') (ESubRecv sid (snd x))) t r prog (RItem (Some x)) in
               match prog with
               | CDrain _ :: _ => Some (set_thread w1 t (TClient r prog PIdle))
               | _ => Some w1
@@ -511,7 +521,8 @@ Definition step_reducer (w : world) (pc : rpc) : option world :=
   | RReduce a go =>
       if go then
         let '(s', effs, nd, evs) := run_reducers e_id 0 (reducers_of w) (w_state w) a [] true in
-        Some (set_rpc (emits (upd_metrics w (fun m => m_add_reduced m 1)) (cb_events XReducer evs))
+        Some (set_rpc (emit (emits (upd_metrics w (fun m => m_add_reduced m 1)) (cb_events XReducer evs))
+                            (EReduced a))
                       (RWrite a s' effs nd))
       else Some (set_rpc w (RWrite a (w_state w) [] true))
   | RWrite a s effs nd =>
@@ -626,7 +637,8 @@ Definition step_chan (w : world) (t : N) (sid : N) (fin : bool) : option world :
       match recv c with
       | None => None
       | Some (Some (IAct (s, a)), c') =>
-          Some (emit (upd_metrics (set_chan w sid c') (fun m => m_add_sub_notified m 1))
+          Some (emit (emit (upd_metrics (set_chan w sid c') (fun m => m_add_sub_notified m 1))
+                           (ESubRecv sid a))
                      (ECb (XChan sid) (CbNotify sid s a)))
       | Some (Some IExit, c') =>
           Some (set_thread (emit (set_chan w sid c') (ECb (XChan sid) (CbOnUnsub sid))) t (TChan sid true))
